@@ -115,6 +115,9 @@ def parse_unit(name):
                 j += 1
             u.sections.append(Section("raw", text="\n".join(buf), origin="%s:%d" % (os.path.basename(path), i + 1)))
             i = j
+        elif key == "@strtable":
+            m = re.match(r"(\S+)\s+(\S+)\s*$", rest)
+            u.sections.append(Section("strtable", file=m.group(1), name=m.group(2), opts={}))
         elif key in ("@type", "@fn"):
             m = re.match(r"(\S+)\s+(\S+)\s*(\{.*)?$", rest)
             if not m:
@@ -315,6 +318,8 @@ def assemble(unit, twin=False):
             it = {"kind": "type", "file": s.file, "name": s.name}
             it.update(s.opts)
             items.append(it)
+        elif s.kind == "strtable":
+            items.append({"kind": "strtable", "file": s.file, "name": s.name})
         elif s.kind == "fn":
             it = {"kind": "fn", "file": s.file, "name": s.name}
             if s.impl:
@@ -339,7 +344,7 @@ def assemble(unit, twin=False):
                 raise Undecided("%s (unit %s)" % (r.get("error"), unit.name))
             for k, v in r.get("rules", {}).items():
                 a.rules[k] = a.rules.get(k, 0) + v
-            if s.kind == "type":
+            if s.kind in ("type", "strtable"):
                 chunks.append((r["text"], "%s:%d" % (r["file"], r["line_start"]), None))
             else:
                 exp_fp = s.opts.get("fingerprint")
